@@ -4,9 +4,8 @@ CONSTANTS
   Denote <- DenoteMC
   Limits <- MCLimits
   HBMode = "on"
-  Table = "GPOS"
-  MaxL = 2
-  TwoSubs = TRUE
+  Table = "GSUB"
+  Shapes = {"2x1", "1x2"}
 INIT MInit
 NEXT RNext
 CONSTRAINTS Bounded NoStuckLig GenEmit Stat
